@@ -63,7 +63,7 @@ theorem predChoiceOk_keyed (db : Db) (s : Sub) (m : Msg) (now : Time) (nb : Opti
     predChoiceOk db s m now nb =
       (match nb with
        | none => (predCands db s m now).isEmpty
-       | some p => (predCands db s m now).any fun d => d.id == p && newestIn (predCands db s m now) d) := by
+       | some p => (predCands db s m now).any fun d => d.id == p && newestIn db (predCands db s m now) d) := by
   unfold predChoiceOk
   simp only [hord, hk, Bool.true_and]
   have : (k != "") = true := by simpa using hne
@@ -126,7 +126,43 @@ theorem C05_link_choice (db : Db) (subs : List Sub) (m : Msg) (now : Time) (fwds
         rw [hdm']; simp [hkk, hk]
       unfold newestIn at hnew
       have := List.all_eq_true.mp hnew d hmem
-      simpa using this
+      simp only [Bool.and_eq_true, decide_eq_true_eq] at this
+      exact this.1
+
+/-- the predecessor query as it stands in the source (regenerated on every run): newest publish time
+    first, and among equal publish times the rows nobody waits on first -/
+theorem C05_predecessor_query_order :
+    Extracted.predecessorOrder = ["Desc:PublishedAt", "Asc:HasSuccessor"] := by decide
+
+/-- **C05 (equal publish times)**: rows made in one transaction carry the same publish time (several
+    deliveries dead-lettered by one sweep, one pull or one nack).  Among the newest same-key rows the
+    link goes to one that nobody waits on yet, if there is one — the end of the chain, not its middle
+    (a link to the middle lets the new row and the chain's end become deliverable together). -/
+theorem C05_link_choice_equal_times (db : Db) (subs : List Sub) (m : Msg) (now : Time) (fwds : List Fwd) (rows : List Delivery)
+    (h : mkRows db subs m now fwds = .ok rows) (k : String) (hk : m.orderKey = some k) (hne : k ≠ "") :
+    ∀ r ∈ rows, ∃ s, s ∈ subs ∧ r.subId = s.id ∧ (s.ordered = true →
+      ∀ p, r.notBefore = some p → ∃ q, q ∈ predCands db s m now ∧ q.id = p ∧
+        ∀ d ∈ predCands db s m now, d.publishedAt = q.publishedAt → hasSucc db d = false → hasSucc db q = false) := by
+  obtain ⟨_, _, hall⟩ := mkRows_spec db subs m now fwds rows h
+  intro r hr
+  obtain ⟨s, f, hs, _, hpred, rfl⟩ := hall r hr
+  refine ⟨s, hs, rfl, ?_⟩
+  intro hord p hp
+  rw [predChoiceOk_keyed db s m now f.nb hord k hk hne] at hpred
+  simp only [mkDelivery] at hp
+  rw [hp] at hpred
+  simp only [List.any_eq_true, Bool.and_eq_true, beq_iff_eq] at hpred
+  obtain ⟨q, hq, hqid, hnew⟩ := hpred
+  refine ⟨q, hq, hqid, ?_⟩
+  intro d hd heq hns
+  unfold newestIn at hnew
+  have := List.all_eq_true.mp hnew d hd
+  have htb : tieBreak = true := by unfold tieBreak; rw [C05_predecessor_query_order]; rfl
+  simp only [htb, Bool.and_eq_true, Bool.or_eq_true, Bool.not_eq_true', hns, heq,
+    Bool.not_true, Bool.false_eq_true, or_false, false_or, decide_eq_true_eq] at this
+  cases hq2 : hasSucc db q with
+  | false => rfl
+  | true => rw [hq2] at this; simp at this
 
 /-! ### the global statement, for histories that refine the ordered-delivery steps -/
 
@@ -346,7 +382,17 @@ theorem C05_link_clause_of_enqueue_check (db : Db) (s : Sub) (m : Msg) (now : Ti
      | some p => (predCands db s m now).any fun q => q.id == p && (predCands db s m now).all fun e => decide (e.publishedAt ≤ q.publishedAt)) = true
   cases hnb : f.nb with
   | none => rw [hnb] at hok; exact hok
-  | some p => rw [hnb] at hok; exact hok
+  | some p =>
+    rw [hnb] at hok
+    simp only [List.any_eq_true, Bool.and_eq_true] at hok ⊢
+    obtain ⟨q, hq, hqid, hnew⟩ := hok
+    refine ⟨q, hq, hqid, ?_⟩
+    unfold newestIn at hnew
+    rw [List.all_eq_true] at hnew ⊢
+    intro e he
+    have := hnew e he
+    simp only [Bool.and_eq_true] at this
+    exact this.1
 
 /-- a deadline modification (positive, zero or negative) only moves attempt times -/
 theorem C05_refines_delay (st : St) (ids : List Id) (Δ : Int) :
